@@ -377,6 +377,9 @@ func bytesOfOpt(o dhcpv4.Options, code uint8) ([]byte, bool) {
 }
 
 func runPlugins(c *Ctx) {
+	if c.Prop == "C19" {
+		runCodec(c) // the option TLV codec against lib/Opt4Codec.v
+	}
 	c.SetCases("From Verif Require Import Base Msg4 Msg6 Plugins4 Plugins6 Setup PluginRun.", "PluginRun.mismatches")
 	c.shard = 40
 	names4 := []string{"dns", "mtu", "netmask", "router", "searchdomains", "staticroute", "lease_time", "ipv6only", "autoconfigure", "nbp", "sleep", "server_id"}
